@@ -71,3 +71,47 @@ def variant_mark_missing(c):
     c.loop(0).invariant(inv)
     c.ensures(lambda: marked(c.new.arr(gp)), "exactly_the_isolated_roots_in_the_map_become_missing")
     c.assigns(gp)
+
+
+# ------------------------------------------------------------------------------------------ sample-list path
+lpos = z3.Function("lpos", z3.IntSort(), z3.IntSort())      # ghost: position of a sample index along next_sample
+
+
+@contract("genotypes.c", "tsk_variant_update_genotypes_sample_list", ["self", "node", "derived"])
+def variant_update_genotypes_sample_list(c):
+    """C03 (default path): the samples below `node` are the stretch of the sample list from left_sample[node] to
+    right_sample[node]; exactly their genotypes become `derived`, every other genotype is unchanged, and every index
+    followed stays inside the sample arrays"""
+    self_, node, derived = c.arg("self"), c.arg("node"), c.arg("derived")
+    h = c.old
+    c.requires(z3.Not(h.isnull(self_)))
+    tree = h.sub(self_, "tree")
+    N = h.get(tree, "virtual_root")
+    lp_, rp_, np_ = h.get(tree, "left_sample"), h.get(tree, "right_sample"), h.get(tree, "next_sample")
+    gp = h.get(self_, "genotypes")
+    ns = h.len(gp)
+    c.requires(z3.And(N >= 0, N <= MAX_ROWS - 1, 0 <= node, node <= N), "checked_node")
+    for p_ in (lp_, rp_):
+        c.requires(z3.And(z3.Not(h.isnull(p_)), p_.off == 0, h.len(p_) >= N + 1))
+    c.requires(z3.And(z3.Not(h.isnull(np_)), np_.off == 0, h.len(np_) >= ns, z3.Not(h.isnull(gp)), gp.off == 0, ns <= MAX_ROWS))
+    c.requires(z3.And(0 <= derived, derived < (1 << 31) - 1), "allele_index_fits")
+    LS, RS_, NX, G = h.arr(lp_), h.arr(rp_), h.arr(np_), h.arr(gp)
+    ins = lambda x: z3.And(0 <= x, x < ns)
+    s_, t2 = z3.Ints("s t2")
+    # the sample list (maintained by tsk_tree_update_sample_lists): next moves one position on, positions are unique
+    c.requires(z3.ForAll([s_], z3.Implies(ins(s_), z3.Or(NX[s_] == -1, z3.And(ins(NX[s_]), lpos(NX[s_]) == lpos(s_) + 1)))), "list_next")
+    c.requires(z3.ForAll([s_, t2], z3.Implies(z3.And(ins(s_), ins(t2), lpos(s_) == lpos(t2)), s_ == t2)), "positions_unique")
+    c.requires(z3.ForAll([s_], z3.Implies(ins(s_), z3.And(0 <= lpos(s_), lpos(s_) < ns))), "positions_are_0_to_num_samples")
+    L, R = LS[node], RS_[node]
+    c.requires(z3.Or(L == -1, z3.And(ins(L), ins(R), lpos(L) <= lpos(R),
+                                     z3.ForAll([s_], z3.Implies(z3.And(ins(s_), lpos(L) <= lpos(s_), lpos(s_) < lpos(R)), NX[s_] != -1)))),
+               "stretch_of_the_node")
+    below = lambda x, upto: z3.And(ins(x), L != -1, lpos(L) <= lpos(x), lpos(x) < upto)
+
+    def painted(Gn, upto):
+        return z3.ForAll([s_], z3.Implies(ins(s_), Gn[s_] == z3.If(below(s_, upto), derived, G[s_])))
+    c.loop(0).invariant(lambda s: z3.And(L != -1, ins(s.index), lpos(L) <= lpos(s.index), lpos(s.index) <= lpos(R), s.stop == R,
+                                         s.ret >= 0, s.ret <= lpos(s.index) - lpos(L), painted(s.arr(gp), lpos(s.index))))
+    c.ensures(lambda: z3.And(c.result >= 0, z3.If(L == -1, c.new.arr(gp) == G, painted(c.new.arr(gp), lpos(R) + 1))),
+              "exactly_the_samples_below_the_node_take_the_derived_allele")
+    c.assigns(gp)
